@@ -54,3 +54,7 @@ def spec_imd(year, month, day, rev):
     else:
         start = cal.cumL(L, month) + day
     return [cal.md_ofL(L, n) for n in range(start, 0, -1)]
+
+
+def hash_elems(h):
+    raise NotImplementedError("hash arguments are not observable natively")
